@@ -30,8 +30,9 @@ Explained(e, M) ==
     [] e.op \in {"add_assign", "sub_assign"} ->
           IF SameShape(M, e.b) THEN GoodMut(e, ModelPost(e, M)) ELSE RejectedSize(e)
     [] e.op \in {"swap_elem", "set", "resize", "transpose_in_place", "clear", "fill", "fill_diag", "fill_band",
-                 "fill_tridiag", "mul_assign", "div_assign", "add_scalar_assign", "sub_scalar_assign"} ->
+                 "fill_tridiag", "mul_assign", "div_assign", "add_scalar_assign", "sub_scalar_assign", "neg_assign"} ->
           GoodMut(e, ModelPost(e, M))
+    [] e.op = "matmul_assign" -> IF Acc_MatMul(M, e.b) THEN GoodMut(e, ModelPost(e, M)) ELSE Rejected(e, M)
     \* ---- observers: the operand must be unchanged and the result must be the definition ----
     [] e.op = "get_row" -> IF Acc_GetRow(M, e.i) THEN GoodV(e, M, GetRow(M, e.i)) ELSE Rejected(e, M)
     [] e.op = "get_col" -> IF Acc_GetCol(M, e.j) THEN GoodV(e, M, GetCol(M, e.j)) ELSE Rejected(e, M)
@@ -64,10 +65,12 @@ Explained(e, M) ==
                                     /\ SameMat(e.rre, Sub(MatMul(e.a, e.c), MatMul(e.b, e.d)))
                                     /\ SameMat(e.rim, Add(MatMul(e.a, e.d), MatMul(e.b, e.c)))
                                ELSE RejectedSize(e)
-    \* float-only norms: the harness logs the error of norm_p / norm_frob in units of 16*(r*c+1)*eps
+    \* float-only norms: the harness logs the error of norm_p / norm_frob in units of (16*(r*c+1) + 2|ln norm|)*eps
     [] e.op = "norm_units" -> ~e.panic /\ e.units <= 1
     \* entrywise operators of Matrix<f64> on general values: every entry is ONE rounded operation of the
     \* definition (bit patterns logged next to those of the primitive operation), shape kept, operand kept
+    \* call-count independence: n calls of one operation on fixed operands, each compared with the first
+    [] e.op = "soak" -> e.panics = 0 /\ e.diffs = 0 /\ e.n > 0
     [] e.op = "ew_bits" -> /\ ~e.panic /\ e.keep /\ e.gr = e.r /\ e.gc = e.c
                             /\ Len(e.got) = e.r * e.c /\ e.got = e.want
     [] OTHER -> FALSE
